@@ -9,6 +9,12 @@ use std::cell::RefCell;
 use std::panic::{catch_unwind, AssertUnwindSafe};
 use std::rc::Rc;
 
+/// marker of an executor error that is not corgi's fault: the case cannot be executed as typed
+pub const HARNESS_DISCARD: &str = "HARNESS-DISCARD";
+pub fn is_discard(msg: &str) -> bool {
+    msg.starts_with(HARNESS_DISCARD)
+}
+
 pub const IS_F32: bool = std::mem::size_of::<Float>() == 4;
 
 pub fn fl(v: f64) -> Float {
@@ -251,6 +257,12 @@ impl Exec {
             },
             Step::Backward { h, seed } => {
                 let a = self.get(*h);
+                if let Some(s) = seed {
+                    if s.len() != a.values().len() {
+                        // the forward result does not have the shape the case was typed with (judged by C04-C07)
+                        return Err(format!("{}: the root has {} elements, the seed {}", HARNESS_DISCARD, a.values().len(), s.len()));
+                    }
+                }
                 let seed = seed.as_ref().map(|s| arr(a.dimensions(), s));
                 guarded(|| a.backward(seed))?;
             }
